@@ -323,3 +323,59 @@ package litmus
 //@   ensures result == x
 //@ func badMapAppend
 //@   ensures result == 1
+
+//@ func okElemField
+//@   requires len(s) > 0
+//@   modifies s
+//@   ensures result == 5
+//@ func badElemField
+//@   requires len(s) > 0
+//@   modifies s
+//@   ensures result == 6
+//@ func okBreakOuter
+//@   ensures result == 3
+//@   loop 1
+//@     invariant 0 <= i && i <= 1 && c == 3 * i
+//@   loop 2
+//@     invariant 0 <= j && j <= 3 && i <= 1 && (i == 0 ==> c == j) && (i == 1 ==> c == 3 && j == 0)
+//@ func badBreakOuter
+//@   ensures result == 6
+//@   loop 1
+//@     invariant 0 <= i && i <= 3
+//@   loop 2
+//@     invariant 0 <= j && j <= 3
+//@ func okBytesOfString
+//@   requires len(s) > 0
+//@   ensures result == s[0]
+//@ func badBytesOfString
+//@   requires len(s) > 0
+//@   ensures result == 'x'
+//@ func badStringOfBytes
+//@   requires len(b) > 0
+//@   modifies b
+//@   ensures result == 'x'
+//@ func okCommaOk
+//@   ensures result == (has(m, "a") ? m["a"] : 0 - 1)
+//@ func badCommaOk
+//@   ensures result == m["a"]
+//@ func setPairA
+//@   ensures result.a == 9 && result.b == p.b
+//@ func okByValue
+//@   requires 0 <= p.a && p.a < 100
+//@   ensures result == p.a + 9
+//@ func badByValue
+//@   requires 0 <= p.a && p.a < 100
+//@   ensures result == 18
+//@ func okRangeWrite
+//@   requires forall j int :: 0 <= j && j < len(s) ==> 0 <= s[j] && s[j] < 100
+//@   modifies s
+//@   ensures len(s) > 0 ==> result == old(s[0]) + 1
+//@   loop 1
+//@     invariant forall j int :: 0 <= j && j < K ==> s[j] == old(s[j]) + 1
+//@     invariant forall j int :: K <= j && j < len(s) ==> s[j] == old(s[j])
+//@ func badRangeWrite
+//@   requires forall j int :: 0 <= j && j < len(s) ==> 0 <= s[j] && s[j] < 100
+//@   modifies s
+//@   ensures len(s) > 0 ==> result == old(s[0])
+//@   loop 1
+//@     invariant true
